@@ -188,7 +188,7 @@ fn run_step_clock_ahead(boc: &Arc<BocData>, st: &Step, max_write: usize, hash_se
         net_faults: vec![],
         server_today: if ahead != 0 { Some(pd(&st.today)) } else { None },
         fs_faults: FsFaultSpec::default(),
-        knobs: Knobs { max_write, max_read: usize::MAX },
+        knobs: Knobs { max_write, max_read: usize::MAX, eintr_every: 0 },
         hash_seed,
     })
 }
